@@ -450,6 +450,13 @@ func binop(op token.Token, t types.Type, a, b Value) Value {
 		return eqValues(a, b)
 	case token.NEQ:
 		return Not(eqValues(a, b))
+	case token.XOR:
+		// the noescape idiom: unsafe.Pointer(uintptr(p) ^ 0)
+		if p, ok := a.(*Ptr); ok {
+			if t, ok := b.(*Term); ok && t.IsConst() && t.C == 0 {
+				return p
+			}
+		}
 	}
 	panic(fmt.Sprintf("binop %s on %T", op, a))
 }
